@@ -49,7 +49,7 @@ theorem foldl_push (ys : List α) : ∀ (l : Lst α),
     simp only [push, List.append_assoc, List.singleton_append, List.length_cons]
     congr 1; omega
 
-theorem step_refines [BEq α] [Inhabited α] (l : Lst α) (hinv : l.Inv) (op : Op α) (l' : List α)
+theorem step_refines [BEq α] [ZeroIsValue α] (l : Lst α) (hinv : l.Inv) (op : Op α) (l' : List α)
     (h : Spec.lstStep l.items op = some l') :
     (l.step op).2 = .ok () ∧ (l.step op).1.items = l' ∧ (l.step op).1.Inv := by
   have hi : l.nitems = l.items.length := hinv
@@ -112,8 +112,20 @@ theorem step_refines [BEq α] [Inhabited α] (l : Lst α) (hinv : l.Inv) (op : O
     simp only [step, concat, foldl_push, true_and]
     simp [Inv, hi]
   | resize n =>
-    simp [Spec.lstStep] at h
-    simp only [step, resize]
+    simp only [Spec.lstStep] at h
+    have hc : (ZeroIsValue.zeroOk α || decide (n ≤ l.items.length)) = true := by
+      by_cases hc : (ZeroIsValue.zeroOk α || decide (n ≤ l.items.length)) = true
+      · exact hc
+      · rw [if_neg hc] at h; cases h
+    rw [if_pos hc] at h
+    simp only [Option.some.injEq] at h
+    have hrg : l.rawGrow (.resize n) = false := by
+      simp only [rawGrow, hi]
+      simp only [Bool.or_eq_true, decide_eq_true_eq] at hc
+      rcases hc with hz | hle
+      · simp [hz]
+      · simp; intro _; omega
+    simp only [step, hrg, Bool.false_eq_true, if_false, resize]
     by_cases hn : n = 0
     · rw [if_pos hn]; subst hn; simp at h; subst h; simp [clear, Inv]
     · rw [if_neg hn]
@@ -139,8 +151,8 @@ theorem step_refines [BEq α] [Inhabited α] (l : Lst α) (hinv : l.Inv) (op : O
       simp only [step, assign, concat, clear, foldl_push, true_and, if_true]
       simp [Inv]
 
-theorem step_out_of_range [BEq α] [Inhabited α] (l : Lst α) (hinv : l.Inv) (op : Op α) (hop : op.iterAssign = false)
-    (h : Spec.lstStep l.items op = none) : (l.step op).1 = l ∧ ∃ e, (l.step op).2 = .raised e := by
+theorem step_out_of_range [BEq α] [ZeroIsValue α] (l : Lst α) (hinv : l.Inv) (op : Op α) (hop : op.iterAssign = false)
+    (hrg : l.rawGrow op = false) (h : Spec.lstStep l.items op = none) : (l.step op).1 = l ∧ ∃ e, (l.step op).2 = .raised e := by
   have hi : l.nitems = l.items.length := hinv
   cases op with
   | push x => simp [Spec.lstStep] at h
@@ -171,12 +183,30 @@ theorem step_out_of_range [BEq α] [Inhabited α] (l : Lst α) (hinv : l.Inv) (o
     · have hm' : l.items.any (· == x) = false := by simpa [Spec.mem] using hm0
       simp [step, rem, (findIdx?_none_any _ _).2 hm']
   | concat ys => simp [Spec.lstStep] at h
-  | resize n => simp [Spec.lstStep] at h
+  | resize n =>
+    simp only [Spec.lstStep] at h
+    by_cases hc : (ZeroIsValue.zeroOk α || decide (n ≤ l.items.length)) = true
+    · rw [if_pos hc] at h; cases h
+    · exfalso
+      simp only [rawGrow, hi] at hrg
+      simp only [Bool.or_eq_true, decide_eq_true_eq, not_or] at hc
+      obtain ⟨hz, hle⟩ := hc
+      have hz' : ZeroIsValue.zeroOk α = false := by simpa using hz
+      rw [hz'] at hrg
+      simp at hrg
+      omega
   | sort f => simp [step, sortBy]
   | assign ys b =>
     cases b
     · simp [Op.iterAssign] at hop
     · simp [Spec.lstStep] at h
+
+/-- in the territory of KF-C04-list-resize-raw the List is grown and the outcome is `.ub` -/
+theorem step_rawGrow [BEq α] [ZeroIsValue α] (l : Lst α) (op : Op α) (hrg : l.rawGrow op = true) :
+    (l.step op).2 = .ub ∧ ∃ n, op = .resize n ∧ (l.step op).1 = (l.resize n).1 := by
+  cases op with
+  | resize n => exact ⟨by simp [step, hrg], n, rfl, by simp [step, hrg]⟩
+  | _ => simp [rawGrow] at hrg
 
 theorem get_eq (l : Lst α) (hinv : l.Inv) (i : Int) :
     l.get i = match Spec.get l.items i with
